@@ -374,6 +374,10 @@ pub fn finish(root: &str, out: CheckOutput, wall_s: f64) -> i32 {
       "exclusions_active": out.exclusions_active,
       "replayed_files": out.replayed.iter().map(|(p, ok)| serde_json::json!({"file": p, "held": ok})).collect::<Vec<_>>(),
       "skipped_sub_checks": out.skipped,
+      "fuzz_tier": std::fs::read_to_string(format!("{}/target/fuzz_stats_{}.json", root, out.property))
+        .ok()
+        .and_then(|s| serde_json::from_str::<serde_json::Value>(&s).ok())
+        .unwrap_or(serde_json::Value::Null),
       "exhaustive": false,
     },
     "assumptions": out.assumptions,
